@@ -338,33 +338,3 @@ example : Spec.maxIntrospectionDepth docLate = false ∧
   decide +kernel
 
 end Gql.Validate.IntrospectionWitness
-
-section C08
-open Gql Gql.Validate Gql.Validate.Rules
-
-/-- MaxIntrospectionDepth (library-specific limit; `rules/max_introspection_depth.go`): on a
-    document whose fragment spreads form no cycle (§5.5.2.2, masked form) the rule reports nothing —
-    and does not panic — iff below no field named `__schema` / `__type` a path through
-    sub-selections, inline fragments and fragment spreads passes 3 list fields. -/
-theorem C08_MaxIntrospectionDepth (s : Schema) (d : QueryDoc) (hc : Spec.noFragmentCycles d = true) :
-    validate [maxIntrospectionDepth] s d = .ok [] ↔ Spec.maxIntrospectionDepth d = true := by
-  obtain ⟨evs, hw⟩ := walkDoc_isSome s.view d
-  unfold maxIntrospectionDepth
-  rw [validate_statelessP_nil s d _ _ evs hw]
-  exact maxIntrospectionDepth_iff s d evs hw hc
-
-/-- Without any hypothesis on the document: if the specification predicate holds, the rule reports
-    nothing (every reported error is a real violation).  The converse needs `Spec.noFragmentCycles`
-    (`IntrospectionWitness.docCyc_counterexample`). -/
-theorem C08_MaxIntrospectionDepth_sound (s : Schema) (d : QueryDoc) (h : Spec.maxIntrospectionDepth d = true) :
-    validate [maxIntrospectionDepth] s d = .ok [] := by
-  obtain ⟨evs, hw⟩ := walkDoc_isSome s.view d
-  unfold maxIntrospectionDepth
-  rw [validate_statelessP_nil s d _ _ evs hw]
-  exact maxIntrospectionDepth_of_spec s d evs hw h
-
-#print axioms C08_MaxIntrospectionDepth
-#print axioms C08_MaxIntrospectionDepth_sound
-#print axioms Gql.Validate.IntrospectionWitness.docCyc_counterexample
-
-end C08
